@@ -6,7 +6,7 @@
     /\ (forall x, wfd c x = true -> fits c x = true -> esize c x = len (enc c x))
     /\ (forall bs x r r', dec c bs = Value x r -> fits c x = true -> dec c (enc c x ++ r') = Value x r'). *)
 From Coq Require Import ZArith List.
-From VB Require Import Serde.StreamDefs Serde.CodecSpec Serde.StreamProofs Serde.EntityDefs Serde.Theorems Serde.FitsProofs Serde.StoredDefs Serde.StoredTheorems.
+From VB Require Import Serde.StreamDefs Serde.CodecSpec Serde.StreamProofs Serde.EntityDefs Serde.Theorems Serde.FitsProofs Serde.StoredDefs Serde.StoredTheorems Serde.FitsMerkle.
 Local Open Scope Z_scope.
 
 Theorem C11_single_be_int64 : c11_ok c_single_be64.
@@ -85,7 +85,7 @@ Print Assumptions C11_PopData.
        (forall x r, wfd c x = true -> dec c (enc c x ++ r) = Value x r)
     /\ (forall bs x r r', dec c bs = Value x r -> dec c (enc c x ++ r') = Value x r')
     /\ (forall x, wfd c x = true -> esize c x = len (enc c x)).
-    For MerklePath/VbkTx/VbkPopTx/ATV/VTB/PopData only the [c11_ok] form above is proved (they are the [_partial] ones):
+    For VbkTx/VbkPopTx/ATV/VTB/PopData only the [c11_ok] form above is proved (they are the [_partial] ones):
     the full statement
        forall bs x r r', dec (c_vtb a) bs = Value x r -> dec (c_vtb a) (enc (c_vtb a) x ++ r') = Value x r'
     is FALSE at the size limits (the decoder accepts non-canonical encodings that are shorter than the canonical one). *)
@@ -140,3 +140,6 @@ Print Assumptions C11_full_StoredBlockIndex_Vbk.
 Theorem C11_full_StoredBlockIndex_Alt : c11_full c_stored_alt.
 Proof. exact stored_alt_full. Qed.
 Print Assumptions C11_full_StoredBlockIndex_Alt.
+Theorem C11_full_MerklePath : c11_full c_merklepath.
+Proof. exact merklepath_full. Qed.
+Print Assumptions C11_full_MerklePath.
